@@ -176,8 +176,8 @@ async def _main(case, obs, loop, net):
             elif kind == "stop":
                 if not stopped["called"]:
                     await do_stop("mid")
-            elif kind in ("send", "send_wait"):
-                _, tname, part, key, ts, headers, pad = op
+            elif kind in ("send", "send_wait", "send_tmo"):
+                _, tname, part, key, ts, headers, pad = op[:7]
                 rec = {"id": (ti, oi * 1000), "task": ti, "idx": oi * 1000, "topic": tname, "req_partition": part,
                        "key": key, "ts": ts, "headers": headers, "t_call": loop._vtime,
                        "accepted": False}
@@ -195,6 +195,14 @@ async def _main(case, obs, loop, net):
                 if kind == "send_wait":
                     try:
                         await fut
+                    except Exception:
+                        pass
+                elif kind == "send_tmo":
+                    # the application gives up waiting: wait_for() cancels the delivery future
+                    try:
+                        await asyncio.wait_for(fut, op[7])
+                    except asyncio.TimeoutError:
+                        rec["app_cancelled"] = True
                     except Exception:
                         pass
             elif kind == "batch":
@@ -261,7 +269,7 @@ async def _main(case, obs, loop, net):
         obs.sender_exc = repr(st.exception())
 
 
-def run(case):
+def _run(case):
     """Execute the case; returns Obs."""
     if not _SHIMMED[0]:
         setup()
@@ -325,12 +333,18 @@ def strategy(focus, wrap=False):
     """focus: 'order' (C01) or 'futures' (C02); wrap: start near the 2^31-1 sequence boundary."""
     from hypothesis import strategies as st
 
+    focus_arg = focus
+
     @st.composite
     def cases(draw):
         idem = True if wrap else draw(st.booleans())
+        cancel = focus_arg == "cancel"
+        if cancel:
+            idem = draw(st.integers(0, 3)) == 0
         nodes = draw(st.integers(1, 3))
         ntopics = draw(st.integers(1, 2))
         topics = []
+        focus = "futures" if cancel else focus_arg
         produce_max = draw(st.sampled_from([7, 7, 7, 5, 3, 2, 1, 0])) if focus == "futures" else 7
         if idem and produce_max < 3:
             produce_max = 3
@@ -344,7 +358,7 @@ def strategy(focus, wrap=False):
         cfg = {
             "idempotent": idem, "acks": acks,
             "max_batch_size": draw(st.sampled_from([80, 120, 200, 400, 600])),
-            "linger_ms": draw(st.sampled_from([0, 0, 5, 50])),
+            "linger_ms": draw(st.sampled_from([5, 50, 50] if cancel else [0, 0, 5, 50])),
             "compression": draw(st.sampled_from([None, None, "gzip", "snappy", "lz4", "zstd"])),
             "request_timeout_ms": draw(st.sampled_from([200, 400, 1000])),
             "retry_backoff_ms": draw(st.sampled_from([10, 30, 100])),
@@ -374,6 +388,10 @@ def strategy(focus, wrap=False):
                     ops.append(["send_wait" if draw(st.integers(0, 7)) == 0 else "send", t["name"],
                                 None if keyed else part, key, ts, [list(h) for h in headers],
                                 draw(st.sampled_from([0, 0, 10, 40, 150]))])
+                    if cancel and draw(st.integers(0, 2)) == 0:
+                        # another task gives up on its record after a while (wait_for cancels the future)
+                        ops[-1][0] = "send_tmo"
+                        ops[-1].append(draw(st.sampled_from([0.002, 0.01, 0.04, 0.1, 0.3])))
                 elif r <= 15:
                     ops.append(["sleep", draw(pauses)])
                 elif r == 16:
@@ -404,6 +422,10 @@ def strategy(focus, wrap=False):
                 code = draw(st.sampled_from([14, 15, 16]))
             faults.append({"sel": sel, "k": draw(st.integers(0, 6)), "act": act, "code": code,
                            "delay": draw(st.sampled_from([0.05, 0.3, 1.5]))})
+        if cancel and not idem and draw(st.booleans()):
+            # a batch refused for good (MESSAGE_TOO_LARGE): every record of it that is still wanted must be failed
+            faults.append({"sel": "produce", "k": draw(st.integers(0, 3)), "act": draw(st.sampled_from(["error", "error_first"])),
+                           "code": 10, "delay": 0.05})
         env = []
         if nodes > 1:
             for _ in range(draw(st.integers(0, 3))):
@@ -433,5 +455,13 @@ def strategy(focus, wrap=False):
             "lat": draw(st.lists(st.sampled_from([0.0005, 0.001, 0.002, 0.005, 0.02]), min_size=1, max_size=5)),
             "chunks": draw(st.lists(st.sampled_from([0, 0, 1, 3, 7, 50]), min_size=1, max_size=4)),
             "rng_seed": draw(st.integers(0, 2 ** 31)),
+            "debug_log": draw(st.integers(0, 7)) == 0,
         }
     return cases()
+
+
+def run(case):
+    """Execute the case (case["debug_log"]: with the library's DEBUG logging switched on); returns Obs."""
+    from vlib.core import debug_logging
+    with debug_logging(case.get("debug_log")):
+        return _run(case)
